@@ -301,8 +301,15 @@ def run(chk):
             args = ["--password=o"] + args
         rc, so, se = common.run_qpdf(args)
         return rc, se
+    # an input whose own --check is not clean (e.g. a stream whose decode parameters are out of range: a content-level
+    # complaint that every rewrite inherits) cannot serve for this clause
+    in_clean = {}
+    for p_in in sorted(set(jobs[i][1] for i, _, _ in recheck)):
+        in_clean[p_in] = None
+    for p_in, (rc_in, so_in, se_in) in zip(list(in_clean), common.par_map(lambda q: common.run_qpdf(["--check", q]), list(in_clean))):
+        in_clean[p_in] = (rc_in == 0)
     for (i, out, cfg), (rc, se) in zip(recheck, common.par_map(rcheck, recheck)):
-        if rc != 0:
+        if rc != 0 and in_clean.get(jobs[i][1]):
             name, p, kind, c = jobs[i]
             chk.violation({"kind": "property-fails-on-implementation", "why": "qpdf --check of its own output is not clean", "input": p,
                            "argv": ["qpdf", "--static-id"] + c + [p, "out.pdf"], "check_exit": rc, "stderr": se.decode("latin-1")[-300:]})
